@@ -35,6 +35,16 @@ CHECKS = {
              "(B<=4, L<=14) of all three variant kinds incl. duplicate rows and invalid lists that must raise.",
         note="Indices are non-negative; insertion coordinates 0..L-1 distinct within an example (coordinate L is ambiguous and not "
              "generated); example indices in range; no conflicting substitutions; at least one position survives."),
+    "C18": dict(
+        technique="property-based testing (Hypothesis) against brute-force Python counting + exhaustive k-mer enumeration",
+        category="exploration", design_ref="DESIGN.md §3 C18",
+        text="Random annotation tables (abutting, overlapping, nested, coinciding spans and spans exactly max_distance-1 / max_distance "
+             "/ max_distance+1 apart, all accepted input forms, explicit shapes, dtypes) are counted by count_annotations, "
+             "pairwise_annotations and pairwise_annotations_spacing and compared entry-for-entry with O(n^2) Python enumeration "
+             "written from the statement; kmers is compared with direct enumeration for every sequence up to length 6 and random "
+             "longer ones with integer scores.",
+        note="Spans have end > start; counts are kept inside the dtype range (else int64); only symmetric=True is compared for the "
+             "spacing function because its non-symmetric orientation is not stated."),
     "C15": dict(
         technique="property-based testing (Hypothesis) with a string round-trip / direct-slicing oracle + exhaustive small-scope enumeration",
         category="exploration", design_ref="DESIGN.md §3 C15",
